@@ -90,6 +90,12 @@ def count_one_of(schema, v, t):
 
 
 def judge(c, vec, o):
+    if not c.get("schema_model") or not c.get("doc_model"):
+        # committed witness without a model: judged against its stored expectation only
+        if o is None or not o.get("ok"):
+            return "not-expressible: %s" % (o and o.get("err"))
+        vs = (o.get("body") or {}).get("variables")
+        return None if strict_same(vs, vec["expect"]["variables"]) else "witness: got %s expected %s" % (json.dumps(vs)[:150], json.dumps(vec["expect"]["variables"])[:150])
     schema = Schema(c["schema_model"])
     op = c["doc_model"]["operations"][0]
     skip = bool(c["options"].get("skip_none"))
@@ -149,8 +155,9 @@ def execute(run, cases, tag="b0"):
             run.inconclusive_case(cid, "probe exit=%s signal=%s" % (o and o.get("exit"), o and o.get("signal")))
             continue
         run.feature(c["features"])
-        schema = Schema(c["schema_model"])
-        op = c["doc_model"]["operations"][0]
+        has_model = bool(c.get("schema_model") and c.get("doc_model"))
+        schema = Schema(c["schema_model"]) if has_model else None
+        op = c["doc_model"]["operations"][0] if has_model else {"vars": []}
         failed = False
         for vec in c["vectors"]:
             run.evaluated()
